@@ -28,6 +28,12 @@ def models(tier):
     for c in (0, 1):
         two += [("m", c, n) for n in ("cer_p0", "cer_p1", "cer_unknown", "dwr", "req")]
     out.append(monitors.ScenarioModel("inbound-two-connections", BASE, two, MONS, max_socks=2))
+    # peers that each share only a part of what the node offers, one after the other and side by side (whatever one capabilities
+    # exchange negotiated must not change what the node offers in the next one)
+    sub = [("accept",)]
+    for c in (0, 1):
+        sub += [("m", c, n) for n in ("cer_onlyacct", "cer_onlyauth", "cer_onlyacct@1", "cer_onlyauth@1", "cer_nocommon", "cer_relay@1", "cer_p1")] + [("eof", c)]
+    out.append(monitors.ScenarioModel("inbound-peers-sharing-subsets", BASE, sub, MONS, max_socks=2))
     # traffic that is not a CE message must not postpone the CE timeout (needs depth: small alphabet)
     out.append(monitors.ScenarioModel("inbound-traffic-vs-timeout", BASE,
                                       [("tick", 1), ("m", 0, "dwr"), ("m", 0, "req"), ("m", 0, "cer_p0"), ("m", 0, "cer_nocommon")],
